@@ -35,6 +35,8 @@ func hspecs() []hspec {
 		{"sha256", sha256.New, 4},
 		{"mimc_bn254", func() hash.Hash { return gchash.MIMC_BN254.New() }, 32},
 		{"poseidon2_bn254", func() hash.Hash { return gchash.POSEIDON2_BN254.New() }, 32},
+		// leaves that are not a whole number of blocks (one block + 8 bytes: the tail is left-padded to a block)
+		{"poseidon2_bn254_leaf40", func() hash.Hash { return gchash.POSEIDON2_BN254.New() }, 40},
 	}
 }
 
